@@ -11,6 +11,8 @@ var repoDir, buildDir string
 
 var suitesByProp = map[string][]func(*runner, *rng){
 	"C12": {suiteOrder, suiteMerge},
+	"C09": {suiteAdd},
+	"C14": {suiteForce},
 }
 
 func main() {
